@@ -165,6 +165,8 @@ func (x *Exec) call(fr *Frame, st *State, c *ssa.CallCommon, instr ssa.Instructi
 			}
 		}
 		res = x.inline(fr, st, callee, args, bind, ct, false)
+	case ct != nil && ct.IterFn != "":
+		res = x.iterateCall(fr, st, ct, callee, c, recv, args, site, alt, pos)
 	case ct != nil:
 		res = x.applyContract(fr, st, ct, callee, c, recv, args, site, pos, resT, clo, cloFr)
 	default:
@@ -513,11 +515,9 @@ func (x *Exec) applyContract(fr *Frame, st *State, ct *FuncContract, callee *ssa
 		}
 	}
 	if ct.Fresh && len(rvals) > 0 {
-		a := rvals[0].T
-		if _, isSl := rtys[0].Underlying().(*types.Slice); isSl {
-			a = fmt.Sprintf("(s-arr %s)", a)
+		for _, a := range x.ptrParts(rvals[0].T, rtys[0], 0) {
+			vc.assume(st.pc, fmt.Sprintf("(and (>= %s %s) (< %s %s))", a, allocBefore, a, st.alloc))
 		}
-		vc.assume(st.pc, fmt.Sprintf("(and (>= %s %s) (< %s %s))", a, allocBefore, a, st.alloc))
 	}
 	for _, e := range ct.Ensures {
 		post.src = e.Src
@@ -548,10 +548,16 @@ func (x *Exec) havocLvalue(fr *Frame, st, pre *State, ct *FuncContract, mk func(
 		name := strings.TrimSpace(m[:i])
 		if g, srt, ok := x.eng.gfieldLookup(ct.PkgPath, name); ok {
 			name = g.Name
+			k := vc.ghostHeapKey(name, x.eng.ghostArrSort(vc, name))
+			if strings.TrimSpace(m[i+1:len(m)-1]) == "*" {
+				// the whole ghost field (of every object)
+				st.heap[k] = vc.freshConst("hv_"+vc.heapNames[k], vc.heapSorts[k])
+				return
+			}
 			ctx := mk(pre, pre)
 			ctx.src = ct.Src
 			obj, _ := ctx.evalText(m[i+1 : len(m)-1])
-			k := vc.ghostHeapKey(name, fmt.Sprintf("(Array Int %s)", srt))
+			_ = srt
 			st.heap[k] = fmt.Sprintf("(store %s %s %s)", vc.heapGet(st, k), obj, vc.freshConst("hv_"+name, srt))
 			return
 		}
@@ -689,7 +695,8 @@ func (e *Engine) modClauseKeys(vc *VC, ct *FuncContract, callee *ssa.Function, c
 		name := strings.TrimSpace(m[:i])
 		if g, srt, ok := e.gfieldLookup(ct.PkgPath, name); ok {
 			name = g.Name
-			return []string{vc.ghostHeapKey(name, fmt.Sprintf("(Array Int %s)", srt))}, "", nil
+			_ = srt
+			return []string{vc.ghostHeapKey(name, e.ghostArrSort(vc, name))}, "", nil
 		}
 	}
 	if strings.HasPrefix(m, "ghost ") {
@@ -1205,6 +1212,8 @@ func (x *Exec) atSite(fr *Frame, st *State, kind string, ord int, vals map[strin
 			ctx.vars[n] = &binding{val: v, typ: typs[n]}
 		}
 		switch at.Kind {
+		case "invariant":
+			// handled by the iteration rule (iterateCall)
 		case "assert":
 			t, _ := ctx.evalText(at.Clause.Text)
 			x.vc.oblige(fmt.Sprintf("%s/assert@%s#%d", fr.unit, site, k), "assert", fr.unit, at.Clause.Src, at.Clause.Text, st.pc, t)
@@ -1307,4 +1316,188 @@ func (x *Exec) useLemma(fr *Frame, st *State, cl Clause) {
 		g, _ := sub.evalText(e.Text)
 		x.vc.assume(st.pc, g)
 	}
+}
+
+// iterateCall is the proof rule for a (dependency) function specified with
+// `iterates f count N`: it calls the closure argument f once for every index
+// 0..N-1 in order and stops early when f returns false; nothing else is
+// visible.  The caller supplies `at <site> invariant I` clauses over `iter`
+// (the number of completed calls).  Obligations: I holds for iter = 0; from
+// I(i), 0 <= i < N, one execution of the closure (its contract, or its body)
+// re-establishes I(i+1) and returns true.  Afterwards I(N) is assumed.
+func (x *Exec) iterateCall(fr *Frame, st *State, ct *FuncContract, callee *ssa.Function, c *ssa.CallCommon, recv *Val, args []Val, site, alt string, pos token.Pos) Val {
+	vc := x.vc
+	ct.used = true
+	if ct.Assumed {
+		vc.usedAssumed[ct.Kind+" "+ct.Key] = true
+	}
+	names, typs := calleeNames(ct, callee, c)
+	vals := args
+	if c.IsInvoke() {
+		vals = append([]Val{*recv}, args...)
+	}
+	fi := -1
+	for i, n := range names {
+		if n == ct.IterFn {
+			fi = i
+		}
+	}
+	if fi < 0 || fi >= len(vals) || vals[fi].Clo == nil {
+		x.eng.fatalf("%s: iterates %s: the argument is not a function literal", x.pos(pos), ct.IterFn)
+		x.havocAllKeep(st, x.closureWritten())
+		return Val{}
+	}
+	clo := vals[fi].Clo
+	cloFr := vals[fi].CloFr
+	if cloFr == nil {
+		cloFr = fr
+	}
+	cloFn := clo.Fn.(*ssa.Function)
+	fsig, _ := typs[fi].Underlying().(*types.Signature)
+	scopePkg := ct.PkgPath
+	if scopePkg == "" {
+		scopePkg = fnPkgPath(fr.fn)
+	}
+	mkSpec := func(cur *State) *EvalCtx {
+		ctx := &EvalCtx{x: x, fr: fr, st: cur, old: cur, pkgPath: scopePkg, vars: map[string]*binding{}, math: ct.Math, src: ct.Src}
+		for i, n := range names {
+			if i < len(vals) && i != fi {
+				ctx.vars[n] = &binding{val: vals[i], typ: typs[i]}
+				ctx.order = append(ctx.order, scopeVar{n, typs[i]})
+			}
+		}
+		return ctx
+	}
+	pre := st.clone()
+	nT, _ := mkSpec(pre).evalText(ct.IterCount)
+	// the caller's invariants at this site
+	type invc struct {
+		k  int
+		at AtSpec
+	}
+	var invs []invc
+	if fr.ct != nil && fr.inlineTag == "" {
+		for k, a := range fr.ct.Ats {
+			if a.Kind == "invariant" && (a.Site == site || (alt != "" && a.Site == alt)) {
+				fr.atUsed()[k] = true
+				invs = append(invs, invc{k, a})
+			}
+		}
+	}
+	intT := types.Typ[types.Int]
+	evalInv := func(s *State, a AtSpec, iterT string) string {
+		ctx := x.ownCtx(fr, s, true)
+		ctx.src = a.Clause.Src
+		ctx.vars["iter"] = &binding{val: Val{T: iterT}, typ: intT}
+		ctx.order = append(ctx.order, scopeVar{"iter", intT})
+		t, _ := ctx.evalText(a.Clause.Text)
+		return t
+	}
+	for _, iv := range invs {
+		vc.oblige(fmt.Sprintf("%s/iter-init@%s#%d", fr.unit, site, iv.k), "inv-init", fr.unit, iv.at.Clause.Src, "holds before the first call: "+iv.at.Clause.Text, st.pc, evalInv(st, iv.at, "0"))
+	}
+	// what the iterations may change: the closure's modifies clause, else everything
+	cct := x.eng.contractFor(cloFn)
+	havoc := func(s *State) {
+		done := false
+		if cct != nil && cct.HasMod && !cct.ModAll {
+			done = true
+			var keys []string
+			for _, m := range cct.Modifies {
+				ks, _, err := x.eng.modClauseKeys(vc, cct, cloFn, nil, m)
+				if err != nil {
+					done = false
+					break
+				}
+				keys = append(keys, ks...)
+			}
+			if done {
+				for _, k := range keys {
+					s.heap[k] = vc.freshConst("hv_"+vc.heapNames[k], vc.heapSorts[k])
+				}
+				old := s.alloc
+				s.alloc = vc.freshConst("alloc", "Int")
+				vc.assume(s.pc, fmt.Sprintf("(>= %s %s)", s.alloc, old))
+			}
+		}
+		if !done {
+			x.havocAllKeep(s, x.closureWritten())
+		}
+	}
+	// an arbitrary iteration
+	body := st.clone()
+	havoc(body)
+	iT := vc.freshConst("iter", "Int")
+	vc.assume(body.pc, fmt.Sprintf("(and (<= 0 %s) (< %s %s))", iT, iT, nT))
+	for _, iv := range invs {
+		vc.assume(body.pc, evalInv(body, iv.at, iT))
+	}
+	var cargs []Val
+	yctx := mkSpec(pre) // the container as it is when the iteration starts
+	yctx.vars["iter"] = &binding{val: Val{T: iT}, typ: intT}
+	yctx.order = append(yctx.order, scopeVar{"iter", intT})
+	if fsig != nil {
+		for i := 0; i < fsig.Params().Len(); i++ {
+			pt := fsig.Params().At(i).Type()
+			v := x.freshTyped(body, "it_"+fsig.Params().At(i).Name(), pt)
+			cargs = append(cargs, v)
+			n := fsig.Params().At(i).Name()
+			if n == "" || n == "_" {
+				n = fmt.Sprintf("it%d", i)
+			}
+			yctx.vars[n] = &binding{val: v, typ: pt}
+			yctx.order = append(yctx.order, scopeVar{n, pt})
+		}
+	}
+	for _, y := range ct.Yields {
+		yctx.src = y.Src
+		t, _ := yctx.evalText(y.Text)
+		vc.assume(body.pc, t)
+	}
+	synth := &ssa.CallCommon{Value: clo}
+	var r Val
+	if cct != nil && !cct.Inline {
+		r = x.applyContract(fr, body, cct, cloFn, synth, nil, cargs, site+".f", pos, cloFn.Signature.Results().At(0).Type(), clo, cloFr)
+	} else {
+		var bind []Val
+		for _, b := range clo.Bindings {
+			bind = append(bind, x.value(cloFr, body, b))
+		}
+		r = x.inline(fr, body, cloFn, cargs, bind, cct, false)
+	}
+	if r.T != "" {
+		vc.oblige(fmt.Sprintf("%s/iter-continues@%s", fr.unit, site), "assert", fr.unit, x.pos(pos), "the function passed to "+ct.Key+" returns true (early stop is not modelled)", body.pc, r.T)
+	}
+	next := fmt.Sprintf("(+ %s 1)", iT)
+	for _, iv := range invs {
+		vc.oblige(fmt.Sprintf("%s/iter-preserved@%s#%d", fr.unit, site, iv.k), "inv-preserved", fr.unit, iv.at.Clause.Src, "preserved by one call: "+iv.at.Clause.Text, body.pc, evalInv(body, iv.at, next))
+	}
+	// after the last call
+	havoc(st)
+	for _, iv := range invs {
+		vc.assume(st.pc, evalInv(st, iv.at, nT))
+	}
+	vc.assume(st.pc, fmt.Sprintf("(>= %s 0)", nT))
+	return Val{}
+}
+
+// ptrParts: the block addresses a value consists of (a pointer, the array of
+// a slice, the pointer fields of a struct value such as a pdata wrapper).
+func (x *Exec) ptrParts(t string, typ types.Type, depth int) []string {
+	switch u := typ.Underlying().(type) {
+	case *types.Pointer, *types.Map, *types.Chan:
+		return []string{t}
+	case *types.Slice:
+		return []string{fmt.Sprintf("(s-arr %s)", t)}
+	case *types.Struct:
+		if depth > 2 {
+			return nil
+		}
+		var out []string
+		for i := 0; i < u.NumFields(); i++ {
+			out = append(out, x.ptrParts(x.vc.fieldSel(typ, i, t), u.Field(i).Type(), depth+1)...)
+		}
+		return out
+	}
+	return nil
 }
